@@ -28,6 +28,7 @@ class Space:
         self.spec = spec     # (params, rule) -> callable(feed) -> [outputs] | None : numpy second opinion
         self.max_dev = max_dev or {}   # tier -> max number of non-default cost-1 dims (tighter than the global bound)
         self.klass = klass   # (non-default minimal params, minimal params, rule) -> class string | None
+        self.component = None  # (rule, class string) -> component of the finding key (default: the rule id)
         self._dims = dims
         self.build = build
         self.near = near
